@@ -66,14 +66,14 @@ def sensitivity():
     for r in rows:
         tot[r[2]] = tot.get(r[2], 0) + 1
     lines.append(f"{len(rows)} patches: {tot.get('DETECTED', 0)} detected, {tot.get('MISSED', 0)} missed, {tot.get('BROKEN', 0)} not applicable to the current tree / not compiling.\n")
-    lines.append('| property | patch | result | seconds | signature of the violation |')
-    lines.append('|---|---|---|---|---|')
+    lines.append('| property | patch | result | seconds | signature of the violation | /repo base |')
+    lines.append('|---|---|---|---|---|---|')
     for pid in sorted(per):
         for r in sorted(per[pid], key=lambda r: r[1]):
             det = r[4] if len(r) > 4 else ''
             m = re.search(r'sig=(.*)$', det)
             sig = (m.group(1) if m else det)[:110].replace('|', '\\|')
-            lines.append(f'| {r[0]} | `{r[1]}` | {r[2]} | {r[3]} | {("`" + sig + "`") if sig else ""} |')
+            lines.append(f'| {r[0]} | `{r[1]}` | {r[2]} | {r[3]} | {("`" + sig + "`") if sig else ""} | {r[5] if len(r) > 5 else ""} |')
     return '\n'.join(lines)
 
 
